@@ -1,3 +1,47 @@
+/// Byte-loop models of `str::rfind('.')` and of the empty-label test: the std versions (memrchr, two-way
+/// search) do not finish under CBMC even on 3-byte names. The check's prepare step rewrites the five call
+/// sites in this file to these functions; natively they are the std calls themselves.
+#[cfg(kani)]
+pub(crate) mod verif_str {
+    pub fn rfind_dot(s: &str) -> Option<usize> {
+        let b = s.as_bytes();
+        let mut i = b.len();
+        while i > 0 {
+            i -= 1;
+            if b[i] == b'.' {
+                return Some(i);
+            }
+        }
+        None
+    }
+    pub fn has_empty_label(s: &str) -> bool {
+        let b = s.as_bytes();
+        if b.is_empty() {
+            return false;
+        }
+        if b[0] == b'.' || b[b.len() - 1] == b'.' {
+            return true;
+        }
+        let mut i = 1;
+        while i < b.len() {
+            if b[i] == b'.' && b[i - 1] == b'.' {
+                return true;
+            }
+            i += 1;
+        }
+        false
+    }
+}
+#[cfg(not(kani))]
+pub(crate) mod verif_str {
+    pub fn rfind_dot(s: &str) -> Option<usize> {
+        s.rfind('.')
+    }
+    pub fn has_empty_label(s: &str) -> bool {
+        s.starts_with('.') || s.ends_with('.') || s.contains("..")
+    }
+}
+
 #[cfg(kani)]
 #[allow(unused, clippy::all)]
 mod verif_proofs {
@@ -80,7 +124,7 @@ mod verif_proofs {
 
     // ------------------------------------------------------------------------------------------
     // C10 (a): the real generic lookup code on a synthetic table, against a reference matcher
-    // rules:  c   b.c   *.d   !a.d        (normal, longer normal, wildcard, exception)
+    // rules:  c   b.c   *.d   !a.d   *.b.d     (normal, longer normal, wildcard, exception, nested wildcard)
     // ------------------------------------------------------------------------------------------
     pub(crate) struct Syn;
     const fn node(len: u32, off: u32, child: u32) -> u32 {
@@ -102,9 +146,11 @@ mod verif_proofs {
         const NODE_TYPE_EXCEPTION: u32 = 1;
         const NUM_TLD: u32 = 2;
         const TEXT: &'static str = "cdba";
-        // 0: c (normal, child b)   1: d (parent only, wildcard, child a)   2: b under c   3: a under d (exception)
-        const NODES: &'static [u32] = &[node(1, 0, 2), node(1, 1, 3), node(1, 2, 0), node(1, 3, 1)];
-        const CHILDREN: &'static [u32] = &[kids(0, 0, 0, 0), kids(0, 0, 1, 0), kids(2, 3, 0, 0), kids(3, 4, 2, 1)];
+        // 0: c (normal, child b)   1: d (parent only, wildcard, children a, b)   2: b under c
+        // 3: a under d (exception)   4: b under d (parent only, wildcard: the rule *.b.d nested below *.d)
+        const NODES: &'static [u32] = &[node(1, 0, 2), node(1, 1, 3), node(1, 2, 0), node(1, 3, 1), node(1, 2, 4)];
+        const CHILDREN: &'static [u32] =
+            &[kids(0, 0, 0, 0), kids(0, 0, 1, 0), kids(2, 3, 0, 0), kids(3, 5, 2, 1), kids(0, 0, 2, 1)];
     }
 
     /// reference: public-suffix length in labels for the name given as labels (rightmost last)
@@ -121,6 +167,9 @@ mod verif_proofs {
         if last == b'd' && n >= 2 {
             if l[n - 2] == b'a' {
                 return 1; // exception !a.d : the suffix is d
+            }
+            if l[n - 2] == b'b' && n >= 3 {
+                return 3; // *.b.d (longest match)
             }
             return 2; // *.d
         }
@@ -155,6 +204,33 @@ mod verif_proofs {
         }
         kani::cover!(want_labels == 2);
         kani::cover!(want_labels == 1);
+        kani::cover!(K < 3 || want_labels == 3);
+    }
+
+    /// a multi-byte first label ("\u{e9}" = 2 bytes) in front of a symbolic single-letter label: byte offsets and
+    /// character positions differ, the results are still cut at the dot
+    #[kani::proof]
+    #[kani::unwind(8)]
+    fn c10_syn_multibyte_label() {
+        let c: u8 = kani::any();
+        kani::assume(c == b'a' || c == b'b' || c == b'c' || c == b'd' || c == b'x');
+        let buf = [0xC3u8, 0xA9, b'.', c];
+        let name = unsafe { core::str::from_utf8_unchecked(&buf) };
+        let p = ListProvider::<Syn>::new();
+        let suffix = p.public_suffix(name);
+        // the unknown first label never matches a rule: the suffix is decided by the last label alone, except under *.d
+        let want_labels = ref_suffix_labels(&[b'x', c]);
+        let r = p.effective_tld_plus_one(name);
+        if want_labels == 1 {
+            assert!(suffix.len() == 1 && suffix.as_bytes()[0] == c);
+            let e = r.unwrap();
+            assert!(e.len() == 4); // the whole name: one label more than the suffix
+        } else {
+            assert!(suffix.len() == 4); // *.d : the whole name is a public suffix
+            assert!(r.is_err());
+        }
+        kani::cover!(want_labels == 1);
+        kani::cover!(want_labels == 2);
     }
 
     #[kani::proof]
